@@ -82,6 +82,23 @@ CHECKS["C17"] = dict(
         "that the full-fragment evaluator includes the auxiliary terms, and (shared with C02) that coefficients are partitioned and the "
         "verifier's evaluation depends on every family. Numerical equality with the definition is not decided.",
    design_ref="DESIGN.md §3 C17")
+CHECKS["C07"] = dict(
+   technique="static analysis: exact integer arithmetic on constants extracted from the compiled crates (Lucas primality proof, orders), MUST-GUARDS for modulus decisions with comparison width, MIR lint for normalisation and canonical serialisation",
+   text="Static proof per field that the published constants satisfy their defining equations (modulus proved prime, two-adicity, orders of "
+        "root of unity and generator, Montgomery constants), that every checked conversion and the deserializer reject exactly the values >= M "
+        "of their own field before any truncation on every accepting path, that the [0,2M) field tests raw values only after normalisation and "
+        "returns normalised integers, and that serialisation is canonical. Agreement of the arithmetic with integer arithmetic mod p for all "
+        "operands is not decided (bit-vector carry logic) — the non-canonical results of f64 double()/mul_small() found while building this "
+        "check were confirmed by running the code and repaired (see known_findings.json).",
+   design_ref="DESIGN.md §3 C07")
+CHECKS["C11"] = dict(
+   technique="static analysis: control-dependence of the zero-copy byte view on IS_CANONICAL, monotone-counter rule with sibling cross-check, exact arithmetic on constant tables, data/control dependence of the capacity element on the input length",
+   text="Static proof that byte-oriented element hashing reinterprets memory only for canonical representations, that all Rescue byte sponges "
+        "detect the last chunk with a counter that is never reset in the loop, that MDS x INV_MDS = I, ALPHA x INV_ALPHA = 1 mod p-1 and the "
+        "tables have the documented shape (circulant where the frequency-domain product is used), and that every sponge entry writes a "
+        "length-dependent value into a fixed capacity position. Equality with the reference permutations and the carry logic of the fast MDS "
+        "reduction are not decided.",
+   design_ref="DESIGN.md §3 C11")
 NA = {
 }
 PENDING = "check under construction in this build round (see DESIGN.md §8)"
